@@ -466,15 +466,28 @@ impl Link {
         let do_rand = self.rand_partition(global_config.message_loss(), rand);
         match (self.state_a_b, self.state_b_a) {
             (State::Healthy, _) | (_, State::Healthy) if do_rand => {
-                self.state_a_b = State::RandPartition;
-                self.state_b_a = State::RandPartition;
+                // Only healthy directions break at random. A direction that
+                // was explicitly partitioned stays explicitly partitioned, so
+                // a later random repair cannot undo it.
+                if let State::Healthy = self.state_a_b {
+                    self.state_a_b = State::RandPartition;
+                }
+                if let State::Healthy = self.state_b_a {
+                    self.state_b_a = State::RandPartition;
+                }
 
                 self.sent.clear();
             }
             (State::RandPartition, _) | (_, State::RandPartition)
                 if self.rand_repair(global_config.message_loss(), rand) =>
             {
-                self.release();
+                // Only randomly partitioned directions heal at random.
+                if let State::RandPartition = self.state_a_b {
+                    self.state_a_b = State::Healthy;
+                }
+                if let State::RandPartition = self.state_b_a {
+                    self.state_b_a = State::Healthy;
+                }
             }
             _ => {}
         }
